@@ -229,6 +229,8 @@ func (g *Gateway) handleLegacyProtocol(w http.ResponseWriter, r *http.Request, t
 			handler := NewProcessor(g, t)
 			RegisterTunnel(t, handler)
 			defer RemoveTunnel(t)
+			// the outbound leg belongs to this tunnel and ends with it
+			defer t.transportOut.Close()
 			handler.Process(r.Context())
 		}
 	}
